@@ -299,7 +299,7 @@ impl World {
                 1,                           // 10 unknown command
                 if bulk { 4 } else { 1 },    // 11 window ack
                 1,                           // 12 set chunk size
-                1,                           // 13 other control / data
+                if bulk { 4 } else { 1 },    // 13 other control / data
                 1,                           // 14 malformed argument lists
             ],
         );
@@ -388,7 +388,18 @@ impl World {
             }
             13 => match ctx.ch.draw("op.arg.otherk", 5) {
                 0 => (msg::ack(ts, ctx.ch.draw("op.arg.seq", 1 << 32) as u32), 2),
-                1 => (RefMsg { type_id: 6, msid: 0, ts, payload: vec![0, 0x26, 0x25, 0xA0, 2] }, 2),
+                1 => {
+                    // SetPeerBandwidth: any size (also far below the acknowledgement window), any limit type
+                    let size = match ctx.ch.weighted("op.arg.bwk", &[2, 3, 1]) {
+                        0 => 2_500_000u32,
+                        1 => ctx.ch.range("op.arg.bw", 1, 3000) as u32,
+                        _ => 0xFFFF_FFFF,
+                    };
+                    let mut p = size.to_be_bytes().to_vec();
+                    p.push(ctx.ch.draw("op.arg.bwlimit", 3) as u8);
+                    ctx.probe("peer.set_peer_bandwidth");
+                    (RefMsg { type_id: 6, msid: 0, ts, payload: p }, 2)
+                }
                 2 => (msg::user_control(ts, 3, 1, Some(3000)), 2),
                 3 => (msg::data(self.pick_sid(ctx), ts, &[AV::s("onMetaData"), AV::Obj(vec![("width".to_string(), AV::Num(1.0))])]), 4),
                 _ => (msg::user_control(ts, 7, 55, None), 2),
